@@ -21,6 +21,7 @@ import LinVerif.Lemmas.C16Escape
 import LinVerif.Lemmas.C16Influx
 import LinVerif.Lemmas.C16FlatAgree
 import LinVerif.Lemmas.C16Ident
+import LinVerif.Lemmas.C16RoutePerm
 import LinVerif.Generated.C16
 
 namespace LinVerif.Props.C16
@@ -277,6 +278,71 @@ theorem groups_distinct (jump : Nat → Nat → Nat) (C : Calc) (hC : CalcSpec C
     · intro a x b hax hxb hp
       simp only [sameShard, beq_iff_eq] at hp ⊢
       omega
+
+/-- **route_group_is_key_class**: a group handed to a family channel is EXACTLY the class of its key: the
+rows of the batch (shards assigned) whose shard `jump hash n` and family time are the group's — all of them,
+each once. So what a row is grouped with is decided by its own (shard, family) alone. -/
+theorem route_group_is_key_class (jump : Nat → Nat → Nat) (C : Calc) (hC : CalcSpec C)
+    {sortShard sortTs : List BRow → List BRow}
+    (hss : SortSpec lessShard sortShard) (hst : SortSpec lessTs sortTs)
+    (n : Nat) (hj : ∀ k, jump k n < n) (rows : List BRow)
+    (g : Group) (hg : g ∈ route jump C sortShard sortTs n rows) :
+    g.rows.Perm ((assignShards jump n rows).filter
+      (fun r => decide (r.shard = g.shard ∧ C.famTime r.row.ts = g.famTime))) := by
+  obtain ⟨hperm, hgroups⟩ := partition jump C hC hss hst n hj rows
+  have hd := groups_distinct jump C hC hss hst n rows
+  let k : BRow → Bool := fun r => decide (r.shard = g.shard ∧ C.famTime r.row.ts = g.famTime)
+  have h1 := hperm.filter k
+  rw [List.filter_flatMap] at h1
+  have hkey : (route jump C sortShard sortTs n rows).Pairwise
+      (fun a b => (fun x : Group => (x.shard, x.famTime)) a ≠ (fun x : Group => (x.shard, x.famTime)) b) :=
+    hd.imp (fun {a b} h e => h ⟨congrArg Prod.fst e, congrArg Prod.snd e⟩)
+  have h2 := flatMap_single_key (fun x : Group => (x.shard, x.famTime)) (fun a => a.rows.filter k)
+    (route jump C sortShard sortTs n rows) hkey g hg (by
+      intro a ha hne
+      rw [List.filter_eq_nil_iff]
+      intro r hr hk
+      obtain ⟨e1, _, e3, _⟩ := (hgroups a ha).2.2 r hr
+      simp only [k, decide_eq_true_eq] at hk
+      exact hne (by rw [← e1, ← e3, hk.1, hk.2]))
+  have h3 : g.rows.filter k = g.rows := by
+    rw [List.filter_eq_self]
+    intro r hr
+    obtain ⟨e1, _, e3, _⟩ := (hgroups g hg).2.2 r hr
+    simp [k, e1, e3]
+  rw [h2, h3] at h1
+  exact h1
+
+/-- **route_permutation_invariant** (the whole `route`, not just a row's placement): two batches holding the
+same rows in ANY order — shuffled by the client, by the pool, by `sort.Sort`'s choices among equal shards or
+timestamps (any two conforming pairs of sorts) — are routed into the same groups: every (shard, family)
+group of one has a group of the other with the same shard, the same family time and the same rows up to
+order. By symmetry the correspondence goes both ways. -/
+theorem route_permutation_invariant (jump : Nat → Nat → Nat) (C : Calc) (hC : CalcSpec C)
+    {ss₁ st₁ ss₂ st₂ : List BRow → List BRow}
+    (h₁s : SortSpec lessShard ss₁) (h₁t : SortSpec lessTs st₁)
+    (h₂s : SortSpec lessShard ss₂) (h₂t : SortSpec lessTs st₂)
+    (n : Nat) (hj : ∀ k, jump k n < n) (rows₁ rows₂ : List BRow) (hp : rows₁.Perm rows₂)
+    (g₁ : Group) (hg₁ : g₁ ∈ route jump C ss₁ st₁ n rows₁) :
+    ∃ g₂ ∈ route jump C ss₂ st₂ n rows₂,
+      g₂.shard = g₁.shard ∧ g₂.famTime = g₁.famTime ∧ g₁.rows.Perm g₂.rows := by
+  obtain ⟨hperm₁, hgroups₁⟩ := partition jump C hC h₁s h₁t n hj rows₁
+  obtain ⟨hperm₂, hgroups₂⟩ := partition jump C hC h₂s h₂t n hj rows₂
+  have hL : (assignShards jump n rows₁).Perm (assignShards jump n rows₂) := hp.map _
+  obtain ⟨_, hne, hmem⟩ := hgroups₁ g₁ hg₁
+  obtain ⟨r, hr⟩ := List.exists_mem_of_ne_nil _ hne
+  have hr1 : r ∈ assignShards jump n rows₁ := hperm₁.subset (List.mem_flatMap.2 ⟨g₁, hg₁, hr⟩)
+  have hr2 : r ∈ (route jump C ss₂ st₂ n rows₂).flatMap (fun g => g.rows) := hperm₂.symm.subset (hL.subset hr1)
+  obtain ⟨g₂, hg₂, hr₂⟩ := List.mem_flatMap.1 hr2
+  obtain ⟨a1, _, a3, _⟩ := hmem r hr
+  obtain ⟨b1, _, b3, _⟩ := (hgroups₂ g₂ hg₂).2.2 r hr₂
+  have es : g₂.shard = g₁.shard := by rw [← a1, ← b1]
+  have ef : g₂.famTime = g₁.famTime := by rw [← a3, ← b3]
+  refine ⟨g₂, hg₂, es, ef, ?_⟩
+  have c1 := route_group_is_key_class jump C hC h₁s h₁t n hj rows₁ g₁ hg₁
+  have c2 := route_group_is_key_class jump C hC h₂s h₂t n hj rows₂ g₂ hg₂
+  rw [es, ef] at c2
+  exact c1.trans ((hL.filter _).trans c2.symm)
 
 /-- **routing does not depend on which shard channels exist**: the groups are formed with the
 configured shard count `n`; with an arbitrary set `present` of existing channels
